@@ -194,7 +194,7 @@ class FunVec:
         s.name, s.i, s.n, s.store = name, isym, nsym, store if store is not None else {}
     def key(s, idx):
         e = sp.expand(SInt.ex(idx) if isinstance(idx, (int, SInt)) else D.lift(idx).v)
-        for base, tag in ((s.i, 'i'), (s.n, 'N')):
+        for base, tag in ((s.i, 'i'), (s.n, 'N'), (s.n + s.i, 'N+i'), (2 * s.n, '2N')):
             k = sp.expand(e - base)
             if k.is_Integer:
                 return '%s%+d' % (tag, int(k)) if int(k) else tag
@@ -330,6 +330,63 @@ def job_cubic_interpolate_allN(seed, bc):
             o = rvc.identity('C12.cubic.interp.periodic.allN/curv', F, 'row 0 == curvature(first knot) - curvature(last knot)', rowsum('c0'), f2.get(0).v - f2.get(SInt(nsym - 1)).v, seed); o['functions'] = mf; obs.append(o)
             jump = slope_at(0, 0) - slope_at(SInt(nsym - 2), SInt(nsym - 1))
             o = rvc.identity('C12.cubic.interp.periodic.allN/slope', F, "row N-1 == S'(first knot) - S'(last knot) up to sign (equal end slopes)", rowsum('N-1') ** 2, jump ** 2, seed); o['functions'] = mf; obs.append(o)
+    return obs
+
+
+def job_cubic_fitbc_allN(seed, bc):
+    """CubicSpline::AddBCToFitMatrix for every number of knots: row l+i+1 of the constraint block (in the unknown knot values f and curvatures f2) is the jump of S' at knot i+1"""
+    rvc.reset()
+    rel = 'tools/src/libtools/cubicspline.cc'
+    fns = rvc.functions(rvc.ast(rel, 'CubicSpline'))
+    cand = fns.get('AddBCToFitMatrix', [])
+    if not cand:
+        raise core.Undecided('front end: AddBCToFitMatrix instantiation not found')
+    fn = cand[0]
+    F = 'CubicSpline::AddBCToFitMatrix'
+    stmts = rvc.body_of(fn)['inner']
+    loops = [k for k, st in enumerate(stmts) if st['kind'] == 'ForStmt']
+    if len(loops) != 1:
+        raise core.Undecided('AddBCToFitMatrix: one loop over the interior knots expected')
+    import z3
+    isym, nsym = sp.Symbol('i', integer=True, nonnegative=True), sp.Symbol('N', integer=True, positive=True)
+    rvec, fvec, f2 = FunVec('r', isym, nsym), FunVec('f', isym, nsym), FunVec('u', isym, nsym)
+    P = rvc.Paths(); P.start()
+    rvc.CTX.base = [z3.Int('N') >= 3, z3.Int('i') >= 0, z3.Int('i') <= z3.Int('N') - 3]
+    this = {'r_': rvec, 'f_': fvec, 'f2_': f2, 'boundaries_': bc}
+    M = SparseM(rvec)
+    ex = Exec({'M': M, 'offset1': 0, 'offset2': 0}, {'enum': lambda nm: ENUM[nm], 'decide': P.decide}, fns, this)
+    for st in stmts[:loops[0]]:
+        ex.stmt(st)
+    loop = stmts[loops[0]]
+    ex.env[loop['inner'][0]['inner'][0]['name']] = SInt(isym)
+    ex.stmt(loop['inner'][4])
+    obs = []
+    bcn = {0: 'natural', 1: 'periodic', 2: 'derivzero'}[bc]
+    mf = fn_meta(fns, 'CubicSpline', ['AddBCToFitMatrix'], rel)
+    def unknown(col):
+        m = re.fullmatch(r'(N\+i|i|N|c)([+-]?\d+)?', col)
+        if not m:
+            raise rvc.Unsupported('column %s' % col)
+        base, k = m.group(1), int(m.group(2) or 0)
+        if base == 'i': return fvec.get(SInt(isym + k)).v
+        if base == 'N+i': return f2.get(SInt(isym + k)).v
+        if base == 'c': return fvec.get(k).v
+        if base == 'N': return (f2.get(k).v if k >= 0 else fvec.get(SInt(nsym + k)).v)
+        raise rvc.Unsupported('column %s' % col)
+    rows = set(k[0] for k in M.e)
+    ok = rows == {'i+1'}
+    o = Ob('C12.cubic.fitbc.%s.allN/row-index' % bcn, F, 'iteration i writes constraint row l+i+1 only', 'RVC', 'symbolic execution', core.PROVED if ok else core.REFUTED, 0, str(sorted(rows)), witness=None if ok else {}); o['functions'] = mf; obs.append(o)
+    if ok:
+        row = M.row('i+1')
+        lhs = sum((v.v * unknown(c) for c, v in row.items()), sp.Integer(0))
+        r = sp.Symbol('r', real=True)
+        def slope_at(interval, knot):
+            exs = Exec({}, {'enum': lambda nm: ENUM[nm], 'getInterval': lambda o_, rv: SInt(interval)}, fns, this)
+            d = exs.call_fn(exs.pick_method('CalculateDerivative', 1), [D(r)], this)
+            return sp.sympify(D.lift(d).v).subs(r, rvec.get(SInt(knot)).v)
+        defect = slope_at(isym, isym + 1) - slope_at(isym + 1, isym + 1)
+        o = rvc.identity('C12.cubic.fitbc.%s.allN/C1' % bcn, F, "constraint row l+i+1 (in the unknown knot values and curvatures) == jump of S' at the interior knot i+1, for every interior knot of every grid", lhs, defect, seed)
+        o['functions'] = mf; obs.append(o)
     return obs
 
 
@@ -797,7 +854,7 @@ def jobs_rvc(tier, seed):
 
 
 def run(tier, seed, only=None):
-    jobs = jobs_rvc(tier, seed) + [(job_cubic_interpolate_allN, (seed, 0)), (job_cubic_interpolate_allN, (seed, 1))] + [(job_getinterval, ('unbounded',)), (job_getinterval, ('twin',))] + [(job_getinterval_real, (k, seed)) for k in ((3, 4) if tier == 'quick' else (3, 4, 5, 6))] + [(job_grid, ('spline', seed)), (job_grid, ('table', seed))]
+    jobs = jobs_rvc(tier, seed) + [(job_cubic_interpolate_allN, (seed, 0)), (job_cubic_interpolate_allN, (seed, 1)), (job_cubic_fitbc_allN, (seed, 0)), (job_cubic_fitbc_allN, (seed, 1))] + [(job_getinterval, ('unbounded',)), (job_getinterval, ('twin',))] + [(job_getinterval_real, (k, seed)) for k in ((3, 4) if tier == 'quick' else (3, 4, 5, 6))] + [(job_grid, ('spline', seed)), (job_grid, ('table', seed))]
     if only:
         jobs = [j for j in jobs if re.search(only, j[0].__name__ + str(j[1]))]
     obs = core.pmap(jobs)
